@@ -66,6 +66,7 @@ SPECS = {
   "level_text": "Bounded verification by exhaustive execution of the real code over a finite domain (every prefix pair; menus of binary-exact positions): the engine explores every choice, all values are concrete so the solver's part is trivial. Nothing is claimed about the unit grammar itself.",
   "harnesses": [{"file": "C18_units.cpp", "defines": {"quick": ["-DVH_MAXEXT=12"], "thorough": ["-DVH_MAXEXT=12"]},
      "entries": [{"entry": "vh_c18_scaling", "label": "vh_c18_scaling.b%d.p%d" % (bs, pw), "fix": {"base": bs, "power": pw}, "tiers": (["quick", "thorough"] if pw == (bs % 3) or bs < 4 else ["thorough"])} for bs in range(31) for pw in range(5)]
+               + [{"entry": "vh_c18_reject", "label": "vh_c18_reject.b%d.p%d" % (bs, pw), "fix": {"base": bs, "power": pw}, "tiers": (["quick", "thorough"] if pw == (bs % 3) else ["thorough"])} for bs in range(31) for pw in range(5)]
                + [{"entry": "vh_c18_transparent", "label": "vh_c18_transparent.x%d.m%d.p%d" % (x, m, p), "fix": {"extent": x, "match": m, "p0": p}} for x in range(2) for m in range(2) for p in range(7)]}]},
  "C16": {
   "explanation": "The engine checks every load, store, free, float->integer conversion, division and allocation on every explored path of EVERY harness (all properties); this check adds the out-of-contract programs: on the fully linked world file one of 44 misuse calls is made - every index getter with an arbitrary 64-bit index, data I/O with arbitrary offsets / wrong ranks / empty requests, NDSize misuse, uninitialised handles, handles to entities deleted meanwhile (array, positions, property, array under a DataView), data-frame access by arbitrary row/column/offset, retrieval with arbitrary reference / feature / position indices, more slice entries than dimensions - and the real index kernels are driven with positions of any magnitude incl. NaN and infinities. Oracle: the call returns or throws a C++ exception, no engine check fires, the file stays usable.",
